@@ -536,6 +536,26 @@ def _run(ctx: RunCtx, sched: Scheduler, rec: T.Recorder) -> None:
                 ch.probe(f"served@ttl{off - ttl:+d}")
         if adv.stop:
             return
+    # a stream that is kept busy: a legitimate turn at ~0.6 ttl refreshes the CURSOR token (and hits the cache of its worker);
+    # at ~1.2 ttl the call token - minted once, at init - is older than the ttl although the cursor is young.  That pair
+    # is expired on every worker, warm ones included: a cache hit must not keep a call alive past its token.
+    if ttl >= 5:
+        res2 = net.post(0, f"/{method}/init", T.init_body(method, 98), v.identity, label=("init", "busy"))
+        p2 = T.parse_response(res2)
+        if p2.cursor is not None and p2.call is not None:
+            busy = Stream(98, method, v.identity, 98)
+            busy.call, busy.t0 = p2.call, sched.time()
+            busy.seen.add(0)
+            t2 = sched.time()
+            sched.advance(int(ttl * 0.6))
+            mid = net.post(0, f"/{method}/exchange", T.turn_body(busy.spec.kind, p2.cursor, p2.call, v=5), v.identity, label=("turn", "busy"))
+            pm = T.parse_response(mid)
+            if mid.status_code == 200 and pm.cursor is not None:
+                sched.advance(t2 + ttl + 2 - sched.time())
+                ch.fault("clock:busy-stream-past-call-ttl")
+                adv.present("expired-call@busy-stream", busy, 0, pm.cursor, p2.call, site="expired:young-cursor-old-call")
+                if adv.stop:
+                    return
     # all workers, long after
     sched.advance(ttl * 3)
     for w in range(n_workers):
